@@ -53,19 +53,20 @@ type phase struct {
 }
 
 type ccase struct {
-	Idx         int
-	Delay       bool
-	SkipErr     bool
-	BatchSize   int // lfs.transfer.batchSize (0 = default 100)
-	Concurrent  int // lfs.concurrenttransfers (0 = default)
-	MaxRetries  int
-	Race        bool
-	Real        string // non-empty: real-Git scenario instead of a request program
-	TargetLen   int
-	Objects     []*object
-	Phases      []phase
-	HasFailKind bool
-	Padded      bool // contains the ptr-padded-1100 quota request
+	Idx           int
+	Delay         bool
+	SkipErr       bool
+	BatchSize     int // lfs.transfer.batchSize (0 = default 100)
+	Concurrent    int // lfs.concurrenttransfers (0 = default)
+	MaxRetries    int
+	Race          bool
+	Real          string // non-empty: real-Git scenario instead of a request program
+	TargetLen     int
+	Objects       []*object
+	Phases        []phase
+	HasFailKind   bool
+	Padded        bool // contains the ptr-padded-1100 quota request
+	LeftoverLocal bool // quota: delayed + undownloadable + cleaned before the list
 }
 
 var objSizes = []int{1, 2, 100, 1000, 1023, 1024, 1025, 4096, 65515, 65516, 65517, 131075}
@@ -125,7 +126,7 @@ func smallBiased(r *rand.Rand, xs []int) int {
 func (g *gen) objects() {
 	r, c := g.r, g.c
 	n := 1 + r.Intn(8)
-	failCase := r.Intn(5) < 2
+	failCase := r.Intn(5) < 2 && !c.LeftoverLocal
 	seen := map[string]bool{}
 	for len(c.Objects) < n {
 		o := &object{Idx: len(c.Objects)}
@@ -240,6 +241,13 @@ func (g *gen) op(withDelay bool, interleave bool) op {
 	case x < 24: // clean of an object's own content (makes it local)
 		o.Kind = "clean"
 		ob := obj()
+		if c.Delay && !ob.obtainableFromServer() && ob.Kind != kLocal {
+			// an undownloadable object that becomes local while it may be delayed is the
+			// coordinate of the quota class "leftover-local" (see program()); keep it out of the general pool
+			o.Obj = -1
+			o.PayClass, o.Payload = g.nonPointer()
+			break
+		}
 		o.PayClass, o.Payload = "objcontent-"+ob.Kind, ob.Content
 	case x < 30: // clean of a canonical pointer: must pass through
 		o.Kind = "clean"
@@ -363,6 +371,39 @@ func (g *gen) program() {
 			}
 		}
 	}
+	// quota "leftover-local": a blob is delayed, its download cannot succeed, and the
+	// object reaches the local store through a clean before Git asks for the list;
+	// once per checkout phase, each time with a fresh undownloadable object. The rest
+	// of such a program uses downloadable objects only, so that it is not cut short.
+	if c.LeftoverLocal {
+		k := 2 + r.Intn(2)
+		for i := 0; i < k; i++ {
+			u := &object{Idx: len(c.Objects), Kind: []string{kMissing, kFailing, kBatchErr}[r.Intn(3)], Size: smallBiased(r, objSizes)}
+			u.Content = filt.Content(r, "random", u.Size)
+			u.Content[0] = byte(i) // distinct even for size 1..2
+			u.Oid = sbx.Sha256Hex(u.Content)
+			u.Ptr = ptrspec.Canonical(ptrspec.Pointer{Oid: u.Oid, Size: int64(u.Size)})
+			switch u.Kind {
+			case kFailing:
+				u.Fault = "404s"
+			case kBatchErr:
+				u.Fault = []string{"403", "410"}[r.Intn(2)]
+			}
+			c.Objects = append(c.Objects, u)
+			c.HasFailKind = true
+			if i >= len(c.Phases) {
+				c.Phases = append(c.Phases, phase{})
+			}
+			ops := c.Phases[i].Ops
+			d := op{Kind: "dsmudge", Path: g.path(), PayClass: "ptr-" + u.Kind, Obj: u.Idx, Known: true, Payload: []byte(u.Ptr), Pk: "whole"}
+			cl := op{Kind: "clean", Path: g.path(), PayClass: "objcontent-" + u.Kind, Obj: u.Idx, Known: true, Payload: u.Content, Pk: pkNames[r.Intn(len(pkNames))]}
+			at := r.Intn(len(ops) + 1)
+			ops = append(ops[:at:at], append([]op{d}, ops[at:]...)...)
+			at2 := at + 1 + r.Intn(len(ops)-at)
+			ops = append(ops[:at2:at2], append([]op{cl}, ops[at2:]...)...)
+			c.Phases[i].Ops = ops
+		}
+	}
 }
 
 func genCase(idx int, seed int64, tierThorough bool) *ccase {
@@ -374,6 +415,9 @@ func genCase(idx int, seed int64, tierThorough bool) *ccase {
 	c.Concurrent = []int{0, 1, 3}[r.Intn(3)]
 	c.MaxRetries = 1 + r.Intn(2)
 	g := &gen{r: r, c: c}
+	if idx%10 == 7 {
+		c.LeftoverLocal, c.Delay = true, true
+	}
 	g.objects()
 	g.program()
 	return c
@@ -428,6 +472,9 @@ func (c *ccase) class() string {
 	}
 	if c.Padded {
 		s += "/padded-ptr"
+	}
+	if c.LeftoverLocal {
+		s += "/leftover-local"
 	}
 	if c.Race {
 		s += "/race"
